@@ -10,7 +10,9 @@ Definition zgt' (a b : Z) : bool := b <? a.
 Definition zsmall : Z := -100.
 Definition zcon (n : Z) (a : unit) : option Z := Some n.
 
-Definition zc_step := @c_step unit Z Z Z Z.ltb zgt' Z.eqb (fun n => n) zcon zsmall.
+Definition zc_step := @c_step unit Z Z Z Z.ltb zgt' (fun n => n) zcon zsmall.
+(* the same with the delete loops as they were before the fix e4337e3 *)
+Definition zc_step_prefix := @c_step_prefix unit Z Z Z Z.ltb zgt' Z.eqb (fun n => n) zcon zsmall.
 Definition zc_init : @cstate Z Z Z := c_init zsmall 0 zsmall 64.
 Definition zstatus := @status Z Z.
 
